@@ -1,4 +1,5 @@
 import Feox.Fmt.Recover
+import Feox.Fmt.Migrate
 /-! Line-protocol front end for the `Fmt` model. -/
 namespace Feox.Drv.FmtDrv
 open Feox.Fmt Feox.Gen
@@ -166,6 +167,36 @@ def handleIO (args : List String) : IO (Option String) := do
           let body := if img' == img then "same" else toString (bodyDigest img')
           s!"{rerrName e} body={body} writes={out.io.length}"))
     | _, _ => pure none
+  | ["migrate", src, amb, recsize, dst] =>
+    match recsize.toNat? with
+    | none => pure none
+    | some rs =>
+      let raw ← IO.FS.readBinFile src
+      let img := imageOfBytes raw
+      let (res, io) := migrateModel img raw.size (b2n amb) rs
+      match res with
+      | .error e =>
+        let name := match e with
+          | .CurrentFormat => "CurrentFormat"
+          | .KeyTooLarge => "KeyTooLarge"
+          | .DestinationTooLarge => "DestinationTooLarge"
+          | .AmbiguousLegacyRecovery => "AmbiguousLegacyRecovery"
+          | .Store e => "Store:" ++ ((rerrName e).drop 4).toString
+        pure (some s!"err {name} srcio={io.length}")
+      | .ok m =>
+        let head := s!"ok records={m.records.length} v={m.sourceVersion} dsize={m.destinationSize} amb={m.ambiguous} srcio={io.length}"
+        if dst == "-" then pure (some head)
+        else
+          let draw ← IO.FS.readBinFile dst
+          let dimg := imageOfBytes draw
+          let dout := recoverImage dimg draw.size { readOnly := true, allowAmbiguous := false, ttlOn := false, now := 0, recSize := rs }
+          match dout.result with
+          | .error e => pure (some (head ++ s!" dst={rerrName e}"))
+          | .ok d =>
+            let sig (image : Image) (v : Nat) (ls : List Live) :=
+              ls.map fun l => (l.key, l.ts, l.expiry, l.valueLen, (fnv (valueOf image v l)).toNat)
+            let same := sig m.image m.sourceVersion m.records == sig d.image d.version d.live
+            pure (some (head ++ s!" same={if same then 1 else 0} dv={d.version} dsz={draw.size}"))
   | _ => pure (handle args)
 
 end Feox.Drv.FmtDrv
